@@ -3,7 +3,9 @@
 // IWYU pragma: friend "rlbox_.*\.hpp"
 
 #include <cstdlib>
+#include <cstdint>
 #include <iostream>
+#include <limits>
 #include <stdexcept>
 #include <type_traits>
 #include <utility>
@@ -33,6 +35,40 @@ namespace detail {
     #endif
   }
     // clang-format on
+  }
+
+  /**
+   * @brief Compute ptr + idx * el_size (or ptr - idx * el_size) for pointer
+   * arithmetic on tainted pointers, making sure that neither the
+   * multiplication nor the addition wrap around the address space. A wrapped
+   * result could otherwise alias an address inside the sandbox.
+   */
+  template<typename T_Idx>
+  inline uintptr_t checked_pointer_offset(uintptr_t ptr,
+                                          T_Idx idx,
+                                          size_t el_size,
+                                          bool subtract)
+  {
+    const char* const err_msg = "Pointer arithmetic overflowed the address space";
+    const uintptr_t max_val = std::numeric_limits<uintptr_t>::max();
+    bool negative = false;
+    if constexpr (std::is_signed_v<T_Idx>) {
+      negative = idx < 0;
+    }
+    // magnitude of the index; correct for the most negative value also
+    uintptr_t magnitude = negative
+                            ? static_cast<uintptr_t>(0) - static_cast<uintptr_t>(idx)
+                            : static_cast<uintptr_t>(idx);
+    if (el_size != 0) {
+      dynamic_check(magnitude <= max_val / el_size, err_msg);
+    }
+    uintptr_t bytes = magnitude * el_size;
+    if (negative != subtract) {
+      dynamic_check(bytes <= ptr, err_msg);
+      return ptr - bytes;
+    }
+    dynamic_check(bytes <= max_val - ptr, err_msg);
+    return ptr + bytes;
   }
 
 #ifdef RLBOX_NO_COMPILE_CHECKS
